@@ -4,7 +4,8 @@ from pathlib import Path
 
 VERIF = Path(__file__).resolve().parent.parent
 
-TB = ("Coq 8.16.1 kernel (vm_compute, no native_compute); translator harness/gen.py; correspondence harness "
+TB = ("Coq 8.16.1 kernel (vm_compute, no native_compute); translators harness/gen.py (tables from the live modules) and "
+      "harness/pysrc.py (Python source text -> Gallina for the byte-level and synchronous functions); correspondence harness "
       "(CPython 3.12.1, real bellows classes); zigpy/asyncio/NCP firmware modelled not verified; see DESIGN.md section 7")
 
 CHECKS = {
@@ -86,10 +87,11 @@ CHECKS["C05"] = dict(
           "adaptive timeout). Theorems for every event list: at most ACK_TIMEOUTS transmissions per send with fixed frame number/payload "
           "and the retransmit flag exactly on repeats; timeout always within [MIN, MAX]; repeats only on NAK or timeout; normal return only "
           "on a covering acknowledgement; failed link silent until RSTACK, waiting sends fail, upper layer told; one DATA frame outstanding; "
-          "consecutive numbers. Tied to the real AshProtocol on a virtual-time loop by correspondence over exhaustive reaction scripts."),
+          "consecutive numbers; the same for runs in which frames race the timeout in one loop iteration. Tied to the real AshProtocol on a "
+          "virtual-time loop by correspondence over exhaustive reaction scripts, and to the source text of the receive-side methods by translation."),
     design_ref="DESIGN.md section 6 C05",
     technique="Coq proof (invariants over event lists, PrimFloat model) + model/implementation correspondence in virtual time",
-    note=TB + "; Print Assumptions lists only the PrimFloat/Uint63 kernel primitives; an ACK racing the timeout in one loop iteration is not modelled",
+    note=TB + "; Print Assumptions lists only the PrimFloat/Uint63 kernel primitives; frames racing the acknowledgement timeout in one loop iteration are modelled (AshRace.v, c05_race_*); the frame handler is proved equal to the methods emitted from the source (c05_source_frame_handler)",
 )
 CHECKS["C07"] = dict(
     category="proof",
@@ -211,7 +213,7 @@ CHECKS["C01"] = dict(
           "timeouts), replayed event by event in the host model; end-to-end delivery is also judged on every run."),
     design_ref="DESIGN.md section 6 C01",
     technique="Coq refinement proof (sliding-window invariant over all label sequences) + host-half co-simulation correspondence",
-    note=TB + "; FIFO lines, one epoch per run; ACK racing the timeout in one loop iteration not modelled; the NCP of the theorem is a relation, the NCP of the experiment a Python simulator; Print Assumptions lists PrimFloat kernel primitives only",
+    note=TB + "; FIFO lines, one epoch per run; the NCP of the theorem is a relation, the NCP of the experiment a Python simulator; Print Assumptions lists PrimFloat kernel primitives only",
 )
 
 CHECKS["C14"] = dict(
